@@ -356,3 +356,11 @@ def canary(env):
     env.assume('generic regime', (T.linalg.norm(e[0:3], dim=-1) > env.eps(x)) & (e[3] > env.eps(x)))
     th = ls.geodesic_loss(lie(pp, 'SO3', x.reshape(1, 4)), lie(pp, 'SO3', y.reshape(1, 4)), reduction='none')
     env.eq('chordal distance instead of the angle', th.reshape(()), 2 * T.linalg.norm(e[0:3], dim=-1))
+
+
+# ape / rpe with align(/scale) hand the alignment to svdstf: "ape with align is unchanged by a rigid / similarity transform of the estimate"
+# rests on svdstf returning THE least-squares similarity (both determinant cases of the SVD) - its contract in c17_align.py, discharged in
+# this check too.  (A planar trajectory puts the SVD into the reflection case for about half of the rigid placements of the estimate.)
+from contracts import c17_align as _c17
+obligation('C19.callee.svdstf', functions=['pypose.function.geometry:svdstf'], max_paths=16, no_validate=True, tol=1e-7, cex_samples=100,
+           note='callee contract of ape/rpe(align=True) (same contract function as C17.svdstf)')(_c17.svdstf)
